@@ -626,7 +626,7 @@ def verb_table(ctx, repo):
                     if isinstance(sl, ast.Slice) and sl.upper is None and sl.lower is not None and ast.unparse(node.targets[0]) == "remainder":
                         n += 1
                         ctx.ob("R1", f"{h.qual}::verb-offset", repo.try_fold(sl.lower, h.mod, h.cls) == 5, f"{h.qual}: payload sliced at {ast.unparse(sl.lower)}, verbs are 5 bytes", loc(h, node))
-    ctx.floor("R1", "payload slice sites", n, 10)
+    ctx.floor("R1", "payload slice sites", n, 6)
     return verbs
 
 
